@@ -282,6 +282,12 @@ static void execOp(const Group& T, const Op& o) {
         case 25: fired("operands_with_coinciding_or_unprintable_forms"); STRCMP_NOCASE_EQUAL_LOCATION(operandPair(o.b).expected, operandPair(o.b).actual, text, file, line); break;
         case 26: fired("operands_with_coinciding_or_unprintable_forms"); CHECK_EQUAL_LOCATION(1.00000001, 1.00000002, text, file, line); break;      // two values that differ and print alike
         case 27: fired("operands_with_coinciding_or_unprintable_forms"); CHECK_EQUAL_LOCATION(SimpleString(operandPair(o.b).expected), SimpleString(operandPair(o.b).actual), text, file, line); break;
+        case 28: { fired("bit_comparison_of_every_operand_width"); const BitsCase& bc = bitsCase(o.b);
+            if (bc.bytes == 1) { unsigned char e = (unsigned char)bc.expected, a = (unsigned char)bc.actual; BITS_LOCATION(e, a, bc.mask, text, file, line); }
+            else if (bc.bytes == 2) { unsigned short e = (unsigned short)bc.expected, a = (unsigned short)bc.actual; BITS_LOCATION(e, a, bc.mask, text, file, line); }
+            else if (bc.bytes == 4) { unsigned int e = (unsigned int)bc.expected, a = (unsigned int)bc.actual; BITS_LOCATION(e, a, bc.mask, text, file, line); }
+            else { unsigned long e = bc.expected, a = bc.actual; BITS_LOCATION(e, a, bc.mask, text, file, line); }
+            break; }
         default: ENUMS_EQUAL_TYPE_LOCATION(int, 1, 2, text, file, line); break;
         }
         break;
